@@ -11,6 +11,9 @@ from vf.core.ctx import Ctx, HarnessError, Result, jsonable
 
 
 def main(argv=None):
+    import logging
+
+    logging.disable(logging.WARNING)  # the library logs every skipped sector / unity operator
     ap = argparse.ArgumentParser()
     ap.add_argument("prop")
     ap.add_argument("--tier", default=os.environ.get("VERIF_TIER", "quick"), choices=["quick", "thorough"])
